@@ -353,6 +353,16 @@ func join(a, b context, node parse.Node, nodeName string) context {
 	// contents of a are always returned.
 	a.element.names = joinNames(a.element.name, b.element.name, a.element.names, b.element.names)
 	a.attr.names = joinNames(a.attr.name, b.attr.name, a.attr.names, b.attr.names)
+	if a.attr.value != b.attr.value && (a.attr.dynamicStart || b.attr.dynamicStart) &&
+		(endsWithCharRefPrefixPattern.MatchString(a.attr.value) || endsWithCharRefPrefixPattern.MatchString(b.attr.value)) {
+		// e.g. `<a href="{{.X}}{{if .C}}&#{{end}}58;alert(1)">`: the text that follows is vetted
+		// against one of the values only, but completes a character reference (":") after
+		// the other one.
+		return context{
+			state: stateError,
+			err:   errorf(ErrBranchEnd, node, 0, "{{%s}} branches end in attribute values %q and %q, one of which ends with an incomplete character reference", nodeName, a.attr.value, b.attr.value),
+		}
+	}
 	if a.attr.value != b.attr.value || b.attr.ambiguousValue {
 		a.attr.ambiguousValue = true
 		if b.attr.dynamicStart && (!a.attr.dynamicStart || strings.ContainsAny(html.UnescapeString(a.attr.value), "/?#")) {
